@@ -90,6 +90,12 @@ def main():
         if old == new:
             errs.append("ElemLiteralResult::init: handling of xmlns attributes not recognised")
         flags["noXmlnsAvt"] = new
+    has_override = "ElemAttribute::namespacesPostConstruction(" in ea
+    if has_override:
+        b = body_of(ea, "ElemAttribute::namespacesPostConstruction(")
+        if b is None or "theHandler.postConstruction( constructionContext, false, getElementName(), &theParentHandler);" not in norm(b):
+            errs.append("ElemAttribute::namespacesPostConstruction not recognised")
+    flags["attrNoAlias"] = has_override
     if errs:
         print("\n".join(errs))
         return 1
